@@ -112,7 +112,7 @@ stat:
         } |
         /* 'stat = functioncal' causes a reduce/reduce conflict */
         prefixexp {
-            if _, ok := $1.(*ast.FuncCallExpr); !ok {
+            if ex, ok := $1.(*ast.FuncCallExpr); !ok || ex.AdjustRet {
                yylex.(*Lexer).Error("parse error")
             } else {
               $$ = &ast.FuncCallStmt{Expr: $1}
